@@ -7,8 +7,9 @@
    how many bytes every single recvmsg call returns;  [bytes_oracle k] answers the n-th call with
    min (max 1 (k n)) |buf| bytes — every way of splitting the stream is such a [k];  [expected ms] = the messages
    byte-identical, in order, each with its own descriptors, numbered 1, 2, 3, ..., then the EOF error.
-   [pf] is the header-field deserializer (any). *)
-From ZV Require Import Base.Bytes Base.Res C14.Model C14.Spec C14.Proofs.
+   [pf] is the header-field deserializer (any); [c11_fields] is the instance the line driver uses: the C11 model of
+   message::Fields (unknown codes ignored, names validated). *)
+From ZV Require Import Base.Bytes Base.Res C14.Model C14.Spec C14.Fields C14.Proofs.
 Open Scope N_scope.
 
 (* every list of valid messages, every handshake cut, every function choosing the size of each recvmsg answer
@@ -36,7 +37,7 @@ Proof. exact receive_no_panic. Qed.
 Print Assumptions C14_no_panic.
 
 Theorem C14_no_panic_std : forall (o : oracle) (seq : N) (st : rstate) (p : panic),
-  snd (receive_message std_fields o seq st) <> Panic p.
+  snd (receive_message c11_fields o seq st) <> Panic p.
 Proof. exact receive_no_panic_std. Qed.
 Print Assumptions C14_no_panic_std.
 
